@@ -42,31 +42,67 @@ def linear_ref(kind, k, q, knots, table, label, n):
 
 
 class Region:
-    def __init__(self, q, knots, label, n, kind, k, qlabel=None):
-        self.q, self.knots, self.label, self.n, self.kind, self.k, self.qlabel = q, knots, label, n, kind, k, qlabel
+    """one region for each request: requests = [(q, kind, k)] with q a polynomial (a symbol of the analysis or a constant of the code)"""
+    def __init__(self, q, knots, label, n, kind=None, k=None, qlabel=None, requests=None):
+        if requests is None:
+            requests = [(q, kind, k)]
+        self.q, self.knots, self.label, self.n, self.qlabel = requests[0][0], knots, label, n, qlabel
+        self.kind, self.k = requests[0][1], requests[0][2]
         self.pts = [knot(knots, label, j) for j in range(n)]
         ranks = [2 * j + 1 for j in range(n)]
+        self.substs = []          # (atom, replacement): a request on a knot is that knot
         self.subst = None
-        if kind == 'at':
-            self.subst = self.pts[k]          # the request is the knot itself
-            self.O = OrderFacts(self.pts, ranks)
-        else:
-            rq = {'in': 2 * k + 2, 'above': 2 * n + 1, 'below': 0}[kind]
-            self.O = OrderFacts([q] + self.pts, [rq] + ranks)
+        pts = list(self.pts)
+        for rq, kd, kk in requests:
+            if kd != 'at':
+                continue
+            if _single_atom(rq) is not None:
+                self.substs.append((_single_atom(rq), self.pts[kk]))
+                if rq is self.q:
+                    self.subst = self.pts[kk]
+            else:
+                self.substs.append((_single_atom(self.pts[kk]), rq))          # a constant request: the knot has that value
+                pts[kk] = rq
+        self.val = {}
+        self.val.update(OrderFacts(pts, ranks).val)
+        for rq, kd, kk in requests:
+            if kd == 'at':
+                continue
+            r_ = {'in': 2 * kk + 2, 'above': 2 * n + 1, 'below': 0}[kd]
+            self.val.update(OrderFacts([rq] + pts, [r_] + ranks).val)
+        self.O = self
 
     def simplify(self, p):
-        if self.subst is not None:
-            p = substitute(p, self.q, self.subst)
+        for at_, rep in self.substs:
+            p = rebuild(p, lambda a, at_=at_, rep=rep: rep if a == at_ else None)
         return rebuild(p, self._f)
 
     # ---- atom rules
     def _f(self, a):
-        if a in self.O.val:
-            return num(self.O.val[a])
+        for at_, rep in self.substs:
+            if a == at_:
+                return rep
+        if a in self.val:
+            return num(self.val[a])
         if a[0] == 'ind':
             return self._ind(a)
         if a[0] != 'fn':
             return None
+        if a[1] == 'at' and len(a) == 4 and a[2][0] == 'B' and a[2][1] == self.label and a[3][0] == 'P':
+            ix = Poly.from_key(a[3][1])
+            if ix.is_const() and ix.const_value().denominator == 1 and -self.n <= ix.const_value() < 0:
+                return index_at(Poly.from_key(a[2][2]), self.label, num(int(ix.const_value()) + self.n))          # counted from the end
+            return None
+        if a[1] == 'searchsorted' and len(a) in (4, 5) and a[2][0] == 'B' and a[2][1] == self.label and a[3][0] == 'P':
+            # the number of knots below the request (side='left') / not above it (side='right')
+            side = a[4][1] if len(a) == 5 and a[4][0] == 'C' else 'left'
+            x = Poly.from_key(a[3][1])
+            ks = [self.simplify_inner(index_at(Poly.from_key(a[2][2]), self.label, num(j))) for j in range(self.n)]
+            tot = Poly()
+            for kj in ks:
+                tot = tot + (mk_ind('<0', kj - x) if 'right' not in str(side) else (num(1) - mk_ind('<0', x - kj)))
+            r = self.simplify_inner(tot)
+            return r if r.is_const() else None
         if a[1] in ('max', 'min') and len(a) == 3 and a[2][0] == 'B' and a[2][1] == self.label:
             es = [self.simplify_inner(index_at(Poly.from_key(a[2][2]), self.label, num(j))) for j in range(self.n)]
             for j, e in enumerate(es):
@@ -90,6 +126,25 @@ class Region:
             if self.simplify_inner(outside) == Poly():
                 return r
             return None          # outside the table (scipy raises / numpy holds the end value): not unfolded
+        if a[1] == 'interp' and len(a) >= 5 and a[2][0] == 'P' and a[3][0] == 'B' and a[3][1] == self.label and a[4][0] == 'B' and a[4][1] == self.label \
+                and all(x[0] == 'C' and isinstance(x[1], str) and x[1].split('=')[0] in ('left', 'right') for x in a[5:]):
+            # np.interp: linear between the knots, the end values (or left= / right=) beyond them
+            x = Poly.from_key(a[2][1])
+            ks = [self.simplify_inner(index_at(Poly.from_key(a[3][2]), self.label, num(j))) for j in range(self.n)]
+            vs = [self.simplify_inner(index_at(Poly.from_key(a[4][2]), self.label, num(j))) for j in range(self.n)]
+            ends = {'left': vs[0], 'right': vs[-1]}
+            for x_ in a[5:]:
+                nm, val = x_[1].split('=', 1)
+                try:
+                    from fractions import Fraction
+                    ends[nm] = num(Fraction(val))
+                except ValueError:
+                    return None
+            out = mk_ind('<0', x - ks[0]) * ends['left'] + mk_ind('<0', ks[-1] - x) * ends['right'] + mk_ind('==0', x - ks[-1]) * vs[-1]
+            for j in range(self.n - 1):
+                inside = (num(1) - mk_ind('<0', x - ks[j])) * mk_ind('<0', x - ks[j + 1])
+                out = out + inside * (vs[j] + (vs[j + 1] - vs[j]) * (x - ks[j]) * (ks[j + 1] - ks[j]).pow(-1))
+            return self.simplify_inner(out)
         if a[1] in ('any', 'all') and len(a) == 3 and a[2][0] == 'B' and a[2][1] == self.qlabel:
             inner = Poly.from_key(a[2][2])
             if inner.is_const():
@@ -97,11 +152,33 @@ class Region:
         return None
 
     def _ind(self, a):
-        # a bracket on a multiple of a decided difference (unit factors, positive constants)
-        return None
+        # a bracket on a decided difference divided by units (positive factors): [x/U - 11/20 < 0] is [x - 11/20 U < 0]
+        p = Poly.from_key(a[2])
+        worst = {}
+        for m, c in p.t.items():
+            for at_, e in m:
+                if at_[0] == 'sym' and str(at_[1]).startswith('unit:') and e < 0:
+                    worst[at_] = min(worst.get(at_, 0), e)
+        if not worst:
+            return None
+        for at_, e in worst.items():
+            p = p * Poly.atom(at_).pow(-e)
+        q = mk_ind(a[1], p)
+        if q.is_const():
+            return q
+        r = rebuild(q, lambda b: num(self.val[b]) if b in self.val else None)
+        return r if r.is_const() else None
 
     def simplify_inner(self, p):
         return rebuild(p, self._f)
+
+
+def _single_atom(p):
+    if p.is_monomial():
+        (m, c), = p.t.items()
+        if c == 1 and len(m) == 1 and m[0][1] == 1:
+            return m[0][0]
+    return None
 
 
 def substitute(p, q, val):
